@@ -15,7 +15,7 @@ for f in "$src"/SEEDED/*; do case "$f" in *patch.diff) ;; *) cp -r "$f" "$out/";
 log="$out/confirm.log"; : > "$log"
 demo=$(ls "$src/$pkg"/zz_seeded_demo*_test.go 2>/dev/null | head -5)
 [ -z "$demo" ] && { echo "no demo test in $src/$pkg" | tee -a "$log"; }
-for d in $demo; do cp "$d" "$W/$pkg/"; done
+for d in $demo; do cp "$d" "$W/$pkg/"; cp "$d" "$out/"; done
 RACE=""; [ "$race" = race ] && RACE="-race"
 echo "== demo WITHOUT change" | tee -a "$log"
 ( cd "$W" && timeout 600 go test $RACE -vet=off -count=1 -run "$rx" "./$pkg/" ) >> "$log" 2>&1; r0=$?
